@@ -205,6 +205,10 @@ VF_ARR_INT(unsigned_int, unsigned int, 0)
 VF_ARR_INT(size_t, size_t, 0)
 VF_ARR_INT(int32_t, int32_t, 1)
 VF_ARR_INT(int64_t, int64_t, 1)
+VF_ARR_INT(int16_t, int16_t, 1)
+VF_ARR_INT(uint16_t, uint16_t, 0)
+VF_ARR_INT(uint32_t, uint32_t, 0)
+VF_ARR_INT(uint64_t, uint64_t, 0)
 VF_ARR_REAL(float, float, vf_h_f, "r4", vf_bits4)
 VF_ARR_REAL(double, double, vf_h_d, "r8", vf_bits8)
 
